@@ -32,6 +32,14 @@ def make_project(seed, nfiles, workdir, size=0.8):
     # many object creations with "x" as first argument, with another one, and with none at all (where `GetArg(0)` fails)
     news = 'class News {\n  void make() {\n' + ''.join('    Object a%d = new Box%d("x", %d);\n    Object b%d = new Box%d();\n    Object c%d = new Box%d(other, %d);\n' % (k, k, k, k, k, k, k, k) for k in range(14)) + '  }\n}\n'
     files.append(('src/twins/News.java', news.encode()))
+    # Javadocs with several DISTINCT @param texts, a tag written before the params, params only, one param
+    docs = ('class Docs {\n  /** first.\n   * @since 1.2\n   * @param alpha the alpha value\n   * @param beta the beta value\n   * @return sum\n   */\n  int add(int alpha, int beta) { return alpha; }\n'
+            '  /** @param gamma only gamma */\n  void one(int gamma) { }\n'
+            '  /** @param x ex\n   * @param y why\n   * @param z zed */\n  void three(int x, int y, int z) { }\n'
+            '  /** @author ann\n   * @param solo single */\n  void authored(int solo) { }\n'
+            '  /** @param p1 first p\n   *  @param p2 second p */\n  void setter(int p1, int p2) { }\n'
+            '  /** @version 3\n   * @param q1 q one\n   * @param q2 q two\n   * @param q3 q three\n   * @param q4 q four */\n  void four(int q1, int q2, int q3, int q4) { }\n}\n')
+    files.append(('src/twins/Docs.java', docs.encode()))
     proj = workdir + '/proj'
     qrun.write_project(proj, files)
     return proj, files
